@@ -151,7 +151,7 @@ func ghostTimerPrefix(kg uint16) []byte { return []byte{byte(kg >> 8), byte(kg),
 // key-group count and operator list: after a rescale a redeployed process must not keep the
 // range of the previous assembly - C06.)
 //@ func Operator.HandleDeploy
-//@   property C02 C15 C06
+//@   property C02 C15 C06 C05
 //@   nosafety
 //@   requires req != nil
 //@   ensures result == nil ==> o.checkpoint == nil
@@ -391,6 +391,14 @@ func ghostEntryKey(s *KeyedStateStore, key []byte) []byte { _, d := s.decodeKey(
 //@   ensures forall(func(k string) bool { return k != senderID ==> has(r.upstreams, k) == old(has(r.upstreams, k)) && r.upstreams[k] == old(r.upstreams[k]) })
 //@   ensures forall(func(k string) bool { return has(r.upstreams, k) ==> !r.watermark.After(r.upstreams[k]) })
 //@   ensures exists(func(k string) bool { return has(r.upstreams, k) && r.watermark == r.upstreams[k] })
+
+// A source runner that completed still bounds the composite watermark: completion removes no
+// upstream entry (its last watermark stays the floor for the timers of the keys it fed).
+//@ func Operator.handleSourceComplete
+//@   property C11
+//@   nosafety
+//@   requires o.timerRegistry != nil
+//@   ensures o.timerRegistry == old(o.timerRegistry) && forall(func(k string) bool { return old(has(o.timerRegistry.upstreams, k)) ==> has(o.timerRegistry.upstreams, k) })
 
 // The timer store behind the registry is decided under C10 (KeyGroupPriorityQueue); here only its
 // frame matters: it never touches the registry's upstream table or cached watermark.
